@@ -78,6 +78,9 @@ func Digest(r io.Reader, hashFunc crypto.Hash) (*CabinetDigest, error) {
 			// remove padding, since the actual signature goes at the end of the file
 			addOffset -= int(padding)
 			cab.SignatureHeader = nil
+		} else if *cab.SignatureHeader == (SignatureHeader{}) {
+			// space for exactly one signature header was reserved but never filled in
+			cab.SignatureHeader = nil
 		} else if cab.Header.TotalSize != cab.SignatureHeader.CabinetSize {
 			// signature header (if present) must agree with cabinet header
 			return nil, fmt.Errorf("cabinet size is %d but signature header specifies %d bytes",
